@@ -19,4 +19,28 @@ def put(path, text):
     if not os.path.exists(path) or open(path).read() != text:
         open(path, "w").write(text)
 put(os.path.join(root, "Driver", "Main.lean"), main)
+# one executable per property as well (modeld_Cxx): a broken driver of one property cannot
+# take the others down; ./check uses these.
+lake = """name = "SpecterModel"
+version = "0.1.0"
+defaultTargets = ["SpecterModel"]
+
+[[lean_lib]]
+name = "SpecterModel"
+
+[[lean_lib]]
+name = "Driver"
+
+[[lean_exe]]
+name = "modeld"
+root = "Driver.Main"
+"""
+for i in drv:
+    put(os.path.join(root, "Driver", i + ".lean"), f"import SpecterModel.{i}.Drv\n\ndef main : IO Unit := Specter.{i}.main\n")
+    lake += f"""
+[[lean_exe]]
+name = "modeld_{i}"
+root = "Driver.{i}"
+"""
+put(os.path.join(root, "lakefile.toml"), lake)
 put(os.path.join(root, "SpecterModel.lean"), top)
